@@ -143,6 +143,65 @@ PROGRAM_NAMES = ["c03:fn_nest3", "c03:fn_nest3_called", "c03:fn_with_loop_twice"
                  "c03:switch3", "c03:sym_loop", "c03:sym_cond", "c03:img_conv", "c03:img_loop"]
 FOUR_D = [("c03", "c03:img_conv"), ("c03", "c03:img_loop"), ("extra", "x:conv_nchw")]
 
+# =========================================================================== one helper function, several instantiations
+# Family added after a seeded regression (nested function scopes receiving a COPY of the parent's function-name
+# counters, so that two instantiations of one helper collide on one (domain, name) identifier): a helper @onnx_function
+# whose body depends on the rank / width of its argument is instantiated inside different @onnx_function blocks, at top
+# level and nested, in both orders.  Every call site must resolve to its own definition.
+FN_NAMES = ["c03f:helper_in_two_blocks_rank", "c03f:helper_in_two_blocks_width", "c03f:helper_top_then_nested",
+            "c03f:helper_nested_then_top", "c03f:same_block_two_ranks", "c03f:three_levels_then_top",
+            "c03f:helper_in_two_blocks_rank_symbolic", "c03f:helper_thrice_alternating"]
+_FNP = None
+
+
+def _fn_programs():
+    global _FNP, c03f_pool, c03f_block_a, c03f_block_b, c03f_wrap, c03f_ramp, c03f_block_c, c03f_block_d
+    if _FNP is not None:
+        return _FNP
+    import jax.numpy as jnp
+    from jax2onnx import onnx_function
+
+    @onnx_function
+    def c03f_pool(x):            # the lowered ReduceSum axis depends on the rank
+        return jnp.tanh(x).sum(axis=-1)
+
+    @onnx_function
+    def c03f_block_a(x):
+        return c03f_pool(x) + 1.0
+
+    @onnx_function
+    def c03f_block_b(x):
+        return c03f_pool(x) - 1.0
+
+    @onnx_function
+    def c03f_wrap(x):
+        return c03f_block_b(c03f_block_a(x))
+
+    @onnx_function
+    def c03f_ramp(x):            # the body holds a constant whose length is the width of x
+        return x * jnp.arange(x.shape[-1], dtype=x.dtype)
+
+    @onnx_function
+    def c03f_block_c(x):
+        return c03f_ramp(x) + 1.0
+
+    @onnx_function
+    def c03f_block_d(x):
+        return c03f_ramp(x) * 2.0
+
+    _FNP = {
+        "c03f:helper_in_two_blocks_rank": (lambda x: c03f_block_b(c03f_block_a(x)), [(2, 3, 4)]),
+        "c03f:helper_in_two_blocks_width": (lambda x, y: jnp.sum(c03f_block_c(x)) + jnp.sum(c03f_block_d(y)), [(2, 3), (2, 5)]),
+        "c03f:helper_top_then_nested": (lambda x: c03f_block_b(c03f_pool(x)), [(2, 3, 4)]),
+        "c03f:helper_nested_then_top": (lambda x: c03f_pool(c03f_block_a(x)), [(2, 3, 4)]),
+        "c03f:same_block_two_ranks": (lambda x: c03f_block_a(c03f_block_a(x)), [(2, 3, 4)]),
+        "c03f:three_levels_then_top": (lambda x: c03f_pool(c03f_wrap(x)), [(2, 3, 4, 5)]),
+        "c03f:helper_in_two_blocks_rank_symbolic": (lambda x: c03f_block_b(c03f_block_a(x)), [("B", 3, 4)]),
+        "c03f:helper_thrice_alternating": (lambda x: c03f_block_a(c03f_block_b(c03f_block_a(x))), [(2, 3, 4, 5)]),
+    }
+    return _FNP
+
+
 # =========================================================================== symbolic dims x control flow
 # Family added after a seeded regression (make_subgraph_context sharing the parent's symbolic-dim origin table with
 # body contexts): a symbolic input dim, a control-flow body that BINDS a value carrying that dim (closed-over batch
@@ -364,6 +423,10 @@ def export_job(kind, ident, over):
         from jax2onnx import to_onnx
         fn, spec = _sym_programs()[ident]
         m = to_onnx(fn, spec, **over)
+    elif kind == "fnp":
+        from jax2onnx import to_onnx
+        fn, spec = _fn_programs()[ident]
+        m = to_onnx(fn, spec, **over)
     else:
         from jax2onnx import to_onnx
         fn, spec = _programs()[ident]
@@ -465,7 +528,7 @@ def plan_jobs(total, tier, seed, newest, newest_ort):
     jobs = []
     for i in exports.select_indices(total, n_default, seed):
         jobs.append(("reg", i, {}, "default"))
-    progs = [("extra", n) for n in exports.extra_names()] + [("c03", n) for n in PROGRAM_NAMES]
+    progs = [("extra", n) for n in exports.extra_names()] + [("c03", n) for n in PROGRAM_NAMES] + [("fnp", n) for n in FN_NAMES]
     for k, n in progs:
         jobs.append((k, n, {}, "default"))
     syms = [("sym", n) for n in sym_names()]          # symbolic dims x control flow x position of the dim use
@@ -1146,6 +1209,7 @@ def run(ctx):
         "programs": {"registry_cases": len({r["key"] for r in results if r["job"][0] == "reg"}),
                      "shared_extras": len({r["key"] for r in results if r["job"][0] == "extra"}),
                      "c03_programs": len({r["key"] for r in results if r["job"][0] == "c03"}),
+                     "c03_helper_function_instantiation_programs": len({r["key"] for r in results if r["job"][0] == "fnp"}),
                      "c03_symbolic_dim_x_control_flow_programs": len({r["key"] for r in results if r["job"][0] == "sym"}),
                      "symbolic_family_axes": {"control": SYM_CONTROLS, "dim_use": SYM_USES, "symbols": ["B", "B,C"]}},
         "configs": dict(per_cfg), "per_tool": dict(per_tool),
